@@ -394,7 +394,7 @@ fn run_catalog(rt: &tokio::runtime::Runtime, cc: &CatCase, model: &mut Model, fr
 }
 
 fn gen_catalog(rng: &mut Rng, report: &mut Report) -> CatCase {
-    let doms = gen::gen_columns(rng);
+    let doms = gen::gen_columns(rng, report);
     let n = rng.range_usize(1, 4);
     let chunks = (0..n)
         .map(|_| {
@@ -461,6 +461,12 @@ fn corpus_b() -> Vec<CatCase> {
         "gt 3 f:4609434218613702656 @ 1 3 F:0 F:4609434218613702656 0 | 1 1 3 f:4609434218613702656 # 1 3 F:0 F:4611686018427387904 0 | 1 1 3 f:4611686018427387904",
         "lt 4 f:4617315517961601024 @ 1 4 I:18446744073709551615 I:18446744073709551615 0 | 1 1 4 i:18446744073709551615",
         " @ 1 2 I:5 I:9 0 | 1 1 2 i:5",
+        // a predicate on a column without statistics may match, whatever statistics a sibling
+        // name (other case, longer name) carries
+        "gt 2 i:100 @ 1 10 I:0 I:10 0 | 1 2 2 i:150 10 i:5",
+        "eq 5 s:7a @ 2 13 S:61 S:62 0 15 S:61 S:61 0 | 1 3 5 s:7a 13 s:61 15 s:61",
+        "lt 17 f:4607182418800017408 @ 1 18 F:4617315517961601024 F:4621819117588971520 0 | 1 2 17 f:4602678819172646912 18 f:4617315517961601024",
+        "ge 12 i:50 ; le 10 i:3 @ 2 2 I:0 I:1 0 10 I:0 I:9 0 | 1 3 2 i:1 10 i:2 12 i:70",
     ]
     .iter()
     .map(|t| CatCase::parse(t))
@@ -494,18 +500,21 @@ fn main() {
                 (!model.is_null() && o.impl_out != o.model_out) || !o.bad.is_empty()
             }
             _ => {
-                let e = sql::parse_expr(&mut Toks::new(v["expr"].as_str().expect("expr")));
+                let c = sql::CCase::parse(&v);
                 let eng = sql::Engine::new(&rt);
-                let o = sql::check_c(&rt, &eng, &e, &mut model);
-                println!("sql   : {}\nimpl  : {}\nmodel : {}", sql::to_sql(&e), o.impl_out, o.model_out);
-                o.differs
+                let o = sql::check_c(&rt, &eng, &c, &mut model);
+                println!(
+                    "sql   : {}\nimpl  : {}\nmodel : {}\nchunk pruned: {}\nrows DataFusion returns from the pruned chunk (row, known): {:?}",
+                    sql::to_sql(&c.e), o.impl_out, o.model_out, o.pruned, o.bad_rows
+                );
+                o.differs || !o.bad_rows.is_empty()
             }
         };
         std::process::exit(if failed { 1 } else { 0 });
     }
 
     let thorough = args.thorough();
-    let (n_a, n_b, n_c, n_d) = if thorough { (600_000usize, 30_000usize, 30_000usize, 8_000usize) } else { (60_000, 2_500, 3_000, 1_500) };
+    let (n_a, n_b, n_c, n_d) = if thorough { (600_000usize, 30_000usize, 30_000usize, 8_000usize) } else { (60_000, 2_500, 6_000, 1_500) };
     let mut rng = Rng::new(args.seed);
 
     // leg A
